@@ -4,6 +4,7 @@ import (
 	"context"
 	"encoding/json"
 	"fmt"
+	"net"
 	"sort"
 	"strings"
 
@@ -28,6 +29,7 @@ func init() {
 					"requests = cmd{configure,show,conf} x 10 argument lists x {service first, cmd first} x {cmd=, cmd*} x {shell, ppp}. session path: 1-3 services (user and group) over name{shell,ppp,junos-exec} x " +
 					"match{none,[protocol=ip],[scope=s1],both} x set_values{[a=1],[b*2],both} x requests{service=shell cmd=, service=ppp protocol=ip, service=ppp protocol=ipx, service*shell, none, and the same with a client-supplied scope=s1 / scope=s2 attribute} x connection scope{s1,s2}. " +
 					"history plane: one authorizer instance answers every ordered pair (thorough: also every triple) of 26 requests = cmd{show, 'show ip', 'show ip route', configure, 'configure terminal'} x 5 argument lists + a session request, under every single rule and rule pair over name{show,'show ip',configure,*} x action x match{none,[ip route],[route],[.*],[terminal]}; each answer is judged on its own (same typed line, different cmd/argument split). " +
+					"loader plane: a user assigned to three scopes (all six orders) with one scope-conditioned service per scope and a group service for one scope, authorizers built by the real loader, session authorizations on connections of each scope through the full server; " +
 					"Every (policy, request) pair is evaluated by the real stringy authorizer (direct handler call, recording Response) and by the independent evaluator mc/ref/authz.go. " +
 					"distinct_nontrivial = distinct (policy, request) pairs on which at least one rule/service applies",
 				Assumptions: []string{"whole-string match is stated with Go's regexp as ^(?:p)$", "where evaluation reaches an invalid pattern before a decision both FAIL and the skip-the-pattern result are accepted (the statement leaves it open)",
@@ -408,6 +410,26 @@ func c11Run(c *Ctx) {
 			return
 		}
 	}
+	// loader plane: authorizers built by the real loader for a user assigned to three scopes, in every order and every
+	// non-empty subset order, asked on connections of each scope
+	{
+		orders := [][]int{{0, 1, 2}, {0, 2, 1}, {1, 0, 2}, {1, 2, 0}, {2, 0, 1}, {2, 1, 0}}
+		for _, ord := range orders {
+			job++
+			if !c.Mine(job) {
+				continue
+			}
+			rw, err := newRWorld(c11LoaderCfg(ord), nil, false)
+			if err != nil {
+				panic(err)
+			}
+			for conn := 0; conn < 3; conn++ {
+				c11Loader(c, rw, c11LoaderCase{Order: ord, Conn: conn})
+				c11Loader(c, rw, c11LoaderCase{Order: ord, Conn: conn, PPP: true})
+			}
+			rw.stop()
+		}
+	}
 	// session path
 	var svcAlpha []ref.Svc
 	matchSets := [][]ref.Val{nil, {{Name: "protocol", Values: []string{"ip"}}}, {{Name: "scope", Values: []string{"s1"}}}, {{Name: "protocol", Values: []string{"ip"}}, {Name: "scope", Values: []string{"s1"}}}}
@@ -449,7 +471,106 @@ func c11Run(c *Ctx) {
 	}
 }
 
+// c11LoaderCase: the authorizers are built by the real loader for a user assigned to three scopes (listed in the given
+// order); the request arrives on a connection bound to scope Conn.
+type c11LoaderCase struct {
+	Order []int `json:"loader_scope_order"`
+	Conn  int   `json:"connection_scope"`
+	PPP   bool  `json:"ppp"`
+}
+
+var c11LScopes = []struct{ name, key, prefix string }{{"a", "key-a", "10.0.0.0/8"}, {"b", "key-b", "172.16.0.0/12"}, {"c", "key-c", "192.168.0.0/16"}}
+
+func c11LoaderCfg(order []int) config.ServerConfig {
+	var cfg config.ServerConfig
+	var svcs []config.Service
+	for _, sc := range c11LScopes {
+		cfg.Secrets = append(cfg.Secrets, scopeCfg(sc.name, sc.key, sc.prefix))
+		svcs = append(svcs, config.Service{Name: "shell", Match: []config.Value{{Name: "scope", Values: []string{sc.name}}}, SetValues: []config.Value{{Name: "tag", Values: []string{sc.name}}}})
+	}
+	grp := config.Group{Name: "g", Services: []config.Service{{Name: "ppp", Match: []config.Value{{Name: "scope", Values: []string{"b"}}}, SetValues: []config.Value{{Name: "pool", Values: []string{"b"}}}}}}
+	var scopes []string
+	for _, i := range order {
+		scopes = append(scopes, c11LScopes[i].name)
+	}
+	cfg.Users = []config.User{{Name: "multi", Scopes: scopes, Services: svcs, Groups: []config.Group{grp}}}
+	return cfg
+}
+
+func c11Loader(c *Ctx, rw *rworld, cs c11LoaderCase) {
+	c.R.Eval()
+	c.Cur(cs)
+	sc := c11LScopes[cs.Conn]
+	addr := []net.Addr{srvx.Addr4(10, 1, 1, 1, 1100), srvx.Addr4(172, 16, 1, 1, 1100), srvx.Addr4(192, 168, 1, 1, 1100)}[cs.Conn]
+	conn, err := rw.W.Open(addr)
+	if err != nil {
+		c.Abort("hang", err.Error(), cs)
+	}
+	defer func() {
+		if !conn.Closed() {
+			conn.FeedEOF()
+		}
+	}()
+	fail := func(what string) {
+		c.R.ViolateMin("loader/"+firstWord(what), fmt.Sprintf("user in scopes listed as %v, connection bound to scope %s: %s", cs.Order, sc.name, what), cs, 1)
+	}
+	if conn.Closed() {
+		fail("refused: the connection was not served")
+		return
+	}
+	m := ref.NewMsg()
+	m.N["authen_method"], m.N["priv_lvl"], m.N["authen_type"], m.N["authen_service"] = 6, 1, 1, 1
+	m.S["user"] = []byte("multi")
+	m.Args = [][]byte{[]byte("service=shell"), []byte("cmd=")}
+	want := []string{"tag=" + sc.name}
+	if cs.PPP {
+		m.Args = [][]byte{[]byte("service=ppp"), []byte("protocol=ip")}
+		want = nil
+		if sc.name == "b" {
+			want = []string{"pool=b"}
+		}
+	}
+	body, _ := ref.AuthorRequest.Encode(m)
+	key := []byte(sc.key)
+	closed, err := rw.W.Deliver(conn, ref.Packet(ref.Header{Version: 0xc0, Type: 2, Seq: 1, Session: 0x11}, key, body))
+	if err != nil {
+		c.Abort("hang", err.Error(), cs)
+	}
+	pk, rest := srvx.ParseStream(conn.Take())
+	if closed || len(pk) != 1 || len(rest) != 0 {
+		fail(fmt.Sprintf("no-answer: closed=%v packets=%d", closed, len(pk)))
+		return
+	}
+	rm, cl := ref.AuthorReply.Decode(ref.Obfuscate(pk[0].H, key, pk[0].Body))
+	if cl != ref.Exact {
+		fail("undecodable reply")
+		return
+	}
+	var got []string
+	for _, a := range rm.Args {
+		got = append(got, strings.TrimSpace(string(a)))
+	}
+	if want == nil {
+		if rm.N["status"] != 0x10 || len(got) != 0 {
+			fail(fmt.Sprintf("granted: no service applies on this scope but the answer is status %#x %v", rm.N["status"], got))
+		}
+	} else if rm.N["status"] != 1 || fmt.Sprint(got) != fmt.Sprint(want) {
+		fail(fmt.Sprintf("values: answered status %#x %v, the service configured for this scope gives %v", rm.N["status"], got, want))
+	}
+	c.R.Distinct(evid.Hash("loader", cs))
+}
+
 func c11Replay(c *Ctx, raw json.RawMessage) {
+	var lc c11LoaderCase
+	if json.Unmarshal(raw, &lc) == nil && len(lc.Order) > 0 {
+		rw, err := newRWorld(c11LoaderCfg(lc.Order), nil, false)
+		if err != nil {
+			panic(err)
+		}
+		defer rw.stop()
+		c11Loader(c, rw, lc)
+		return
+	}
 	var cs c11Case
 	if err := json.Unmarshal(raw, &cs); err != nil {
 		panic(err)
